@@ -1,7 +1,13 @@
 """C04 — QoS 1/2 delivery protocol across reconnects and sessions."""
 
 PROP = {'areas': [{'area': 'engine',
-            'corpus': ['corpus/engine/d9_connack_before_connect_flushed.script', 'corpus/engine/d6_ack_timeout_mid_pubrel.script'],
+            'corpus': ['corpus/engine/d11_half_encoded_connect_service_time.script',
+                       'corpus/engine/d12_keep_alive_one_second.script',
+                       'corpus/engine/d14_close_with_queued_disconnect.script',
+                       'corpus/engine/d21_slow_start_failed_attempt.script',
+                       'corpus/engine/d6_ack_timeout_mid_pubrel.script',
+                       'corpus/engine/d7_alias_after_failed_validation.script',
+                       'corpus/engine/d9_connack_before_connect_flushed.script'],
             'extra': ['100'],
             'only_prop': 'C04',
             'quick': 4000,
